@@ -238,18 +238,26 @@ def call_round_trip(cs: bytes, sc: bytes, isc: bytes, cid: bytes, pays: bool, sa
 
 
 def _replay_cursor_plain(args: dict) -> str | None:
-    """Real functions on the same plaintext, sealed with the real crypto."""
+    """Real functions on the same plaintext, sealed with the real crypto (zstd codec: a real frame of zraw)."""
+    import base64
+
+    import zstandard
+
     data = args["data"]
+    plain = data[1:]
     if data[:1] == b"\x01":
-        return None  # needs a zstd body that decompresses to args['zraw']; covered by the harness run only
-    tok = __import__("base64").b64encode(crypto.seal_bytes(data, b"k" * 32, aad=b"a", version=st._CURSOR_TOKEN_VERSION))
+        if not args["zok"]:
+            return None
+        plain = args["zraw"]
+        data = b"\x01" + zstandard.ZstdCompressor().compress(plain)
+    tok = base64.b64encode(crypto.seal_bytes(data, b"k" * 32, aad=b"a", version=st._CURSOR_TOKEN_VERSION))
     try:
         s2, c2 = st._open_cursor_token(tok, b"k" * 32, b"a", 0)
     except Exception as e:  # noqa: BLE001
         info = tc.http_error_info(e)
         return None if info is not None and info[0] == 400 and info[1] in _CURSOR_MSGS else f"_open_cursor_token raised {e!r}"
-    ok = data[:1] == b"\x00" and data[9:] == c2 + struct.pack("<I", len(s2)) + s2 and len(c2) == 16
-    return None if ok else f"_open_cursor_token accepted plaintext {data!r} as {(s2, c2)!r} which does not re-frame to it"
+    ok = data[:1] in (b"\x00", b"\x01") and plain[8:] == c2 + struct.pack("<I", len(s2)) + s2 and len(c2) == 16
+    return None if ok else f"_open_cursor_token accepted plaintext {plain!r} as {(s2, c2)!r} which does not re-frame to it"
 
 
 @cond(q=60, t=200, stubs=tc.TOKEN_STUBS, encoded=[st._open_cursor_token, st._unpack_plaintext, st._read_segment], bound="any authenticated plaintext <= 36 bytes (raw codec) / any decompressed body <= 32 bytes (zstd codec)",
@@ -359,31 +367,29 @@ _CID = b"0123456789abcdef"
 
 
 def _replay_ttl(args: dict) -> str | None:
-    """Real crypto and the real clock shifted: created_at = real_now - (now - created)."""
-    import time as _t
-
+    """Real crypto/zstd/base64; the clock seen by the token module is substituted (integer seconds)."""
     created = sum(t * (256**i) for i, t in enumerate(args["ts"]))
-    age = args["now"] - created
-    ttl = args["ttl"]
-    real_now = int(_t.time())
-    c2 = real_now - age
-    if not 0 <= c2 < 2**64 or abs(age - ttl) <= 2:
-        return None  # cannot be placed on the real clock without racing the second boundary
-    want_reject = ttl > 0 and age > ttl
-    for kind in ("cursor", "call"):
-        if kind == "cursor":
-            tok = st._seal_cursor_token(b"st", _CID, b"k" * 32, b"a", c2)
-            op = lambda: st._open_cursor_token(tok, b"k" * 32, b"a", ttl)  # noqa: E731
-        else:
-            tok = st._seal_call_token(b"c", "T", b"s", b"i", _CID, "sid", b"k" * 32, b"a", c2)
-            op = lambda: st._open_call_token(tok, b"k" * 32, b"a", ttl)  # noqa: E731
-        try:
-            op()
-            rejected = False
-        except Exception:  # noqa: BLE001
-            rejected = True
-        if rejected != want_reject:
-            return f"{kind} token aged {age}s with ttl={ttl} was {'rejected' if rejected else 'accepted'}"
+    now, ttl = args["now"], args["ttl"]
+    want_reject = ttl > 0 and now - created > ttl
+    saved = st.time
+    st.time = tc._FakeClock(now)  # type: ignore[assignment]
+    try:
+        for kind in ("cursor", "call"):
+            if kind == "cursor":
+                tok = st._seal_cursor_token(b"st", _CID, b"k" * 32, b"a", created)
+                op = lambda: st._open_cursor_token(tok, b"k" * 32, b"a", ttl)  # noqa: E731
+            else:
+                tok = st._seal_call_token(b"c", "T", b"s", b"i", _CID, "sid", b"k" * 32, b"a", created)
+                op = lambda: st._open_call_token(tok, b"k" * 32, b"a", ttl)  # noqa: E731
+            try:
+                op()
+                rejected = False
+            except Exception:  # noqa: BLE001
+                rejected = True
+            if rejected != want_reject:
+                return f"{kind} token created at {created}, opened at {now} with ttl={ttl} was {'rejected' if rejected else 'accepted'}"
+    finally:
+        st.time = saved  # type: ignore[assignment]
     return None
 
 
